@@ -59,6 +59,7 @@ var (
 	c09docPanic    = core.RegCounter("c09.single_documented_panics_counted_invalid")
 	c09otherPanic  = core.RegCounter("c09.single_panics_outside_documented_conditions_counted_invalid")
 	c09nodes       = core.RegCounter("c09.nodes")
+	c09oneOpts     = core.RegCounter("c09.nodes_passing_one_reused_options_variable")
 	c09otherPreset = core.RegCounter("c09.same_tuple_under_another_preset")
 	c09lru         = core.RegCounter("c09.nodes_with_real_lru")
 	c09stub        = core.RegCounter("c09.nodes_with_adversarial_stub_cache")
@@ -221,14 +222,21 @@ func c09Pool(r *core.Run, g *Gen, n int) []c09Tx {
 			rr.SetEdwardsPoint(curve.EIGHT_TORSION[t.W(8)])
 			add(clone(a), msg, append(clone(rr[:]), make([]byte, 32)...), o, "non-canonical-A")
 		case 10:
-			// honest key, non-canonical small-order R with S = k*a
+			// honest key, small-order R (non-canonical or canonical encoding) with S = k*a: satisfies the
+			// cofactored equation, so the decision is entirely the preset's (AllowSmallOrderR / AllowNonCanonicalR)
 			rr := ncPoints()[t.W(len(ncPoints()))]
+			kindName := "non-canonical-R"
+			if t.W(2) == 1 {
+				var c curve.CompressedEdwardsY
+				c.SetEdwardsPoint(curve.EIGHT_TORSION[t.W(8)])
+				rr, kindName = clone(c[:]), "small-order-R"
+			}
 			priv := ed25519.NewKeyFromSeed(seed)
 			k := hramScalar(dom2, rr, priv[32:], msg)
 			S := k.Mul(k, edSecretScalar(priv))
 			sb := make([]byte, 32)
 			_ = S.ToBytes(sb)
-			add(clone(priv[32:]), msg, append(clone(rr), sb...), o, "non-canonical-R")
+			add(clone(priv[32:]), msg, append(clone(rr), sb...), o, kindName)
 		case 11:
 			pk, sig := craftSig(g, seed, 0, 0, 0, dom2, msg)
 			if t.W(2) == 0 {
@@ -334,6 +342,19 @@ type c09Node struct {
 	cv    *cache.Verifier
 	bv    *ed25519.BatchVerifier
 	queue []int
+	// some nodes keep ONE Options variable and overwrite its fields for every call, as code that fills a
+	// struct from the transaction's header does; the library is handed the same pointer every time
+	oneOpts bool
+	ovar    ed25519.Options
+}
+
+// o returns the options to pass for transaction x: x's own struct, or the node's one variable set to it.
+func (nd *c09Node) o(x *c09Tx) *ed25519.Options {
+	if !nd.oneOpts || x.opts == nil {
+		return x.opts
+	}
+	nd.ovar = *x.opts
+	return &nd.ovar
 }
 
 func runC09(e *Env, r *core.Run) {
@@ -360,7 +381,10 @@ func runC09(e *Env, r *core.Run) {
 	fail := func(class, key, format string, args ...interface{}) { r.Fail(class, key, format, args...) }
 	for ni := 0; ni < nnodes && len(r.Main.Fails()) == 0; ni++ {
 		r.Count(c09nodes)
-		nd := &c09Node{id: ni}
+		nd := &c09Node{id: ni, oneOpts: t.W(2) == 1}
+		if nd.oneOpts {
+			r.Count(c09oneOpts)
+		}
 		var stub *simio.Cache
 		if t.W(2) == 0 {
 			nd.cv = cache.NewVerifier(cache.NewLRUCache(1 + t.W(4)))
@@ -411,18 +435,18 @@ func runC09(e *Env, r *core.Run) {
 					var pmsg string
 					switch path {
 					case 0:
-						pan, pmsg = Guard(func() { got = ed25519.VerifyWithOptions(x.pk, x.msg, x.sig, x.opts) })
+						pan, pmsg = Guard(func() { got = ed25519.VerifyWithOptions(x.pk, x.msg, x.sig, nd.o(&x)) })
 						r.Count(c09single)
 					case 1:
 						ex, err := txs[ti].expanded(t.W(2) == 1)
 						if err != nil || ex == nil {
 							got = false // no expanded form exists; plain verification must reject too
 						} else {
-							pan, pmsg = Guard(func() { got = ed25519.VerifyExpandedWithOptions(ex, x.msg, x.sig, x.opts) })
+							pan, pmsg = Guard(func() { got = ed25519.VerifyExpandedWithOptions(ex, x.msg, x.sig, nd.o(&x)) })
 						}
 						r.Count(c09expanded)
 					default:
-						pan, pmsg = Guard(func() { got = nd.cv.VerifyWithOptions(x.pk, x.msg, x.sig, x.opts) })
+						pan, pmsg = Guard(func() { got = nd.cv.VerifyWithOptions(x.pk, x.msg, x.sig, nd.o(&x)) })
 						r.Count(c09cached)
 					}
 					if pan {
@@ -497,23 +521,23 @@ func c09Batch(r *core.Run, e *Env, nd *c09Node, txs []c09Tx, chunk []int, decide
 			if isDefaultOpts && t.W(2) == 0 {
 				bv.Add(x.pk, x.msg, x.sig)
 			} else {
-				bv.AddWithOptions(x.pk, x.msg, x.sig, x.opts)
+				bv.AddWithOptions(x.pk, x.msg, x.sig, nd.o(&x))
 			}
 		case 1:
 			ex, _ := txs[ti].expanded(t.W(2) == 1) // nil on failure: the batch must mark the entry invalid
 			if isDefaultOpts && t.W(2) == 0 {
 				bv.AddExpanded(ex, x.msg, x.sig)
 			} else {
-				bv.AddExpandedWithOptions(ex, x.msg, x.sig, x.opts)
+				bv.AddExpandedWithOptions(ex, x.msg, x.sig, nd.o(&x))
 			}
 		case 2:
 			if isDefaultOpts && t.W(2) == 0 {
 				nd.cv.Add(bv, x.pk, x.msg, x.sig)
 			} else {
-				nd.cv.AddWithOptions(bv, x.pk, x.msg, x.sig, x.opts)
+				nd.cv.AddWithOptions(bv, x.pk, x.msg, x.sig, nd.o(&x))
 			}
 		default:
-			bv.AddWithOptions(x.pk, x.msg, x.sig, x.opts)
+			bv.AddWithOptions(x.pk, x.msg, x.sig, nd.o(&x))
 		}
 		want = append(want, x.want)
 		all = all && x.want
